@@ -333,6 +333,12 @@ class Session:
         ext = [int(w[1] - w[0]) for w in win]
         if via == "dataview":
             return [nix.data_view.DataView(a, tuple(slice(w[0], w[1]) for w in win)) for a in arrs], via
+        if via == "get_slice_data":
+            try:
+                return [a.get_slice([float(p) for p in pos], [float(e) for e in ext], nix.DataSliceMode.Data)
+                        for a in arrs], via
+            except Exception:
+                pass        # position -> index conversion is C07's subject: fall back to index mode
         if via in ("tag", "tagfeat", "mtag", "mtagfeat"):
             try:
                 self.ntag += 1
@@ -374,6 +380,8 @@ def read_through(obj, ix, how):
             return np.array(obj)
     if ix is None:
         return obj[None]            # `sl is None` branch of _read_data (also what __array__ uses)
+    if how == "np":
+        return obj[np_index(ix)]
     return obj[py_index(ix, how)]
 
 
@@ -403,7 +411,7 @@ def run_impl(ctx, case):
                 elif name == "view":
                     how = op[3] if len(op) > 3 else {"via": "get_slice"}
                     (dv,), used = s.view(op[1], how)
-                    if used in ("tag", "tagfeat", "mtag", "mtagfeat"):
+                    if used in ("tag", "tagfeat", "mtag", "mtagfeat", "get_slice_data"):
                         rop[1] = [[int(sl.start), int(sl.stop)] for sl in dv._slices] if dv.valid else None
                     rop = rop[:3] + [dict(how, used=used)]
                     outs.append({"ok": canon_array(read_through(dv, op[2], how.get("read", "getitem")))})
@@ -633,7 +641,8 @@ def gen_case(rng, profile):
                 win = None
             else:
                 win = gen_window(rng, shape, invalid=(q < 0.12))
-            via = rng.choice(["get_slice", "get_slice", "dataview", "tag", "mtag", "tagfeat", "mtagfeat"])
+            via = rng.choice(["get_slice", "get_slice", "dataview", "tag", "mtag", "tagfeat", "mtagfeat",
+                              "get_slice_data"])
             if win is None:
                 via = "dataview"
             earlier = [o for o in ops if o[0] == "view" and o[1] is not None]
@@ -1080,7 +1089,15 @@ def gen_oracle_case(rng, profile):
         r = rng.random()
         if r < 0.6:
             extra.append(["read", gen_np_index(rng, shape), "np"])
-        elif r < 0.75:
+        elif r < 0.68:
+            win = gen_window(rng, shape)
+            wshape = [w[1] - w[0] for w in win]
+            uix = gen_np_index(rng, wshape)
+            if uix is not None and any(isinstance(i, dict) for i in uix):
+                uix = None
+            extra.append(["view", win, uix, {"via": rng.choice(["get_slice", "dataview", "tag", "mtag",
+                                                                   "get_slice_data"]), "read": "np"}])
+        elif r < 0.78:
             extra.append(["read", None, "iter"])
         elif r < 0.9:
             extra.append(["read", None, "read_direct"])
